@@ -911,7 +911,13 @@ def m_get(c):
     kt = c.types(k)
     if kt is None or not kt <= HASHABLE:
         c.rz("TypeError", "dict.get() of a possibly unhashable key", [("nottype", k, HASHABLE)])
-    c.ret(None, pure=False)
+    # d.get(k, default) == d[k] if k in d else default: split on membership
+    default = c.args[1] if len(c.args) > 1 else dict(c.kwargs).get("default", C(None))
+    sub = ("sub", c.recv, k)
+    if not c.s.contradicts(("has", c.recv, k)):
+        c.ret(sub, ("has", c.recv, k), ("ok", sub), pure=False)
+    if not c.s.contradicts(("nothas", c.recv, k)):
+        c.ret(default, ("nothas", c.recv, k), pure=False)
 
 
 @method("copy")
